@@ -357,4 +357,782 @@ theorem fieldValue_eq_getField (st : Store) (name : Nat) (ty : Ty) (d : Val) :
     simp
     cases d <;> cases ty <;> simp [typeDefault]
 
+/-! ### encode = documented layout -/
+
+theorem shortLayout (n : Nat) (h : n ≤ 32767) : intLayout 2 false (n : Int) = [n % 256, n / 256] := by
+  unfold intLayout intByte
+  have e : (((n : Int) % ((2 ^ (8 * 2) : Nat) : Int)).toNat) = n := by
+    have : ((2 ^ (8 * 2) : Nat) : Int) = 65536 := by decide
+    rw [this]; omega
+  simp only [e]
+  simp [List.range_succ]
+  omega
+
+theorem short_inRange (n : Nat) (h : n ≤ 32767) : intInRange 2 true (n : Int) = true := by
+  have : (256 ^ 2 / 2 : Nat) = 32768 := by decide
+  simp [intInRange, this]
+  omega
+
+theorem encItems_layout (f : Val → Except Err (Nat × Bytes)) (g : Val → Bytes) :
+    ∀ (xs : List Val), (∀ x ∈ xs, f x = .ok ((g x).length, g x)) →
+      encItems f xs = .ok (((xs.map g).flatten).length, (xs.map g).flatten)
+  | [], _ => rfl
+  | x :: xs, h => by
+      have h1 := h x (by simp)
+      have h2 := encItems_layout f g xs (fun y hy => h y (by simp [hy]))
+      simp [encItems, h1, h2]
+
+/-- statement for types -/
+def EncLayoutT (t : Ty) : Prop :=
+  ∀ v, wf t v = true → encode t v = .ok ((layout t v).length, layout t v)
+/-- statement for field lists -/
+def EncLayoutF (fs : Flds) : Prop :=
+  ∀ st, wfFields fs st = true → encFields fs st = .ok ((layoutFields fs st).length, layoutFields fs st)
+
+theorem encLayout_int (s : Nat) (sg be : Bool) : EncLayoutT (.int s sg be) := by
+  intro v h
+  cases v <;> simp [wf] at h
+  · simp [encode, encInt, intLayout_eq be h, layout, intLayout_length]
+  · simp [encode, encInt, intLayout_eq be h, layout, intLayout_length]
+
+theorem encLayout_bool : EncLayoutT .bool := by
+  intro v h
+  cases v <;> simp [wf] at h
+  rename_i b
+  cases b <;> simp [encode, truthy, layout, boolByte]
+
+theorem encLayout_char (iso : Bool) : EncLayoutT (.char iso) := by
+  intro v h
+  cases v <;> simp [wf] at h
+  rename_i cs
+  obtain ⟨hl, hc⟩ := h
+  have ht : cs.take 1 = cs := List.take_of_length_le (by omega)
+  simp [encode, encChar, ht, encodeCs_ok hc, layout, hl]
+
+theorem encLayout_str (iso : Bool) : EncLayoutT (.str iso) := by
+  intro v h
+  cases v <;> simp [wf] at h
+  rename_i cs
+  obtain ⟨hl, hc⟩ := h
+  have h1 := intLayout_eq false (short_inRange cs.length hl)
+  rw [shortLayout cs.length hl] at h1
+  simp [encode, encStr, h1, encodeCs_ok hc, layout]
+  omega
+
+theorem encLayout_fixed (iso : Bool) (n : Nat) (rj : Bool) : EncLayoutT (.fixed iso n rj) := by
+  intro v h
+  cases v <;> simp [wf] at h
+  rename_i cs
+  obtain ⟨⟨hl, hc⟩, _⟩ := h
+  cases rj with
+  | false =>
+    have hp : inCharset iso (ljust cs n) = true := by
+      unfold ljust; rw [inCharset_append, hc, inCharset_spaces]; rfl
+    have := ljust_length hl
+    simp [encode, encFixed, encodeCs_ok hp, layout]
+    unfold ljust at this ⊢
+    simp at this ⊢
+    omega
+  | true =>
+    have hp : inCharset iso (rjust cs n) = true := by
+      unfold rjust; rw [inCharset_append, hc, inCharset_spaces]; rfl
+    have := rjust_length hl
+    simp [encode, encFixed, encodeCs_ok hp, layout]
+    unfold rjust at this ⊢
+    simp at this ⊢
+    omega
+
+theorem isNil_false_of {fs : Flds} (h : (!fs.isNil) = true) : fs.isNil = false := by
+  simpa using h
+
+theorem encLayout_record (fs : Flds) (q : EncLayoutF fs) : EncLayoutT (.record fs) := by
+  intro v h
+  cases v <;> simp [wf] at h
+  rename_i st
+  obtain ⟨hn, hw⟩ := h
+  simp [encode, asStore, hn, q st hw, layout]
+
+theorem encLayout_optrec (fs : Flds) (q : EncLayoutF fs) : EncLayoutT (.optrec fs) := by
+  intro v h
+  cases v with
+  | none => simp [encode, layout]
+  | recd st =>
+    cases st with
+    | nil => simp [encode, layout]
+    | cons a st =>
+      simp [wf] at h
+      obtain ⟨hn, hw⟩ := h
+      simp [encode, asStore, hn, q _ hw, layout]
+      omega
+  | _ => simp [wf] at h
+
+theorem encLayout_arr (e : Ty) (cs : Nat) (csg cbe : Bool) (ih : EncLayoutT (elemTy e)) : EncLayoutT (.arr e cs csg cbe) := by
+  intro v h
+  obtain ⟨xs, rfl⟩ := wf_arr_not_list _ _ _ _ _ h
+  rw [wf_arr] at h
+  simp only [Bool.and_eq_true, List.all_eq_true] at h
+  obtain ⟨hc, hx⟩ := h
+  have hitems := encItems_layout (fun x => encode (elemTy e) x) (fun x => layout (elemTy e) x) xs (fun x hxm => ih x (hx x hxm))
+  rw [encode_arr, layout_arr]
+  simp [encArr, encInt, intLayout_eq cbe hc, hitems, intLayout_length]
+
+theorem encLayout_nil : EncLayoutF .nil := by
+  intro st _
+  simp [encFields, layoutFields]
+
+theorem encLayout_cons (n : Nat) (t : Ty) (d : Val) (r : Flds) (pt : EncLayoutT t) (qr : EncLayoutF r) :
+    EncLayoutF (.cons n t d r) := by
+  intro st h
+  simp [wfFields] at h
+  obtain ⟨⟨h1, _⟩, h3⟩ := h
+  simp [encFields, pt _ h1, qr st h3, layoutFields, fieldValue_eq_getField]
+
+theorem encLayout_all : (∀ t, EncLayoutT t) ∧ (∀ fs, EncLayoutF fs) :=
+  ty_flds_induction encLayout_int encLayout_bool encLayout_char encLayout_str encLayout_fixed
+    encLayout_record encLayout_optrec (fun e cs csg cbe _ ih => encLayout_arr e cs csg cbe ih)
+    encLayout_nil encLayout_cons
+
+/-! ### decoding the documented layout -/
+
+theorem take_append_length {α : Type} (a b : List α) (n : Nat) (h : a.length = n) : (a ++ b).take n = a := by
+  subst h; simp
+
+theorem intFromBytes_intLayout {s : Nat} {sg : Bool} (be : Bool) {v : Int} (h : intInRange s sg v = true) :
+    intFromBytes sg be (intLayout s be v) = v :=
+  intFromBytes_intToBytes h (intLayout_eq be h)
+
+theorem decItemsAt_layout (f : Bytes → Except Err (Int × Val)) (g : Val → Bytes) (nrm : Val → Val) :
+    ∀ (xs : List Val), (∀ x ∈ xs, ∀ tail, f (g x ++ tail) = .ok (((g x).length : Int), nrm x)) →
+      ∀ (pre tail : Bytes),
+        decItemsAt f xs.length (pre ++ (xs.map g).flatten ++ tail) (pre.length : Int)
+          = .ok ((pre.length : Int) + (((xs.map g).flatten).length : Int), xs.map nrm)
+  | [], _, pre, tail => by simp [decItemsAt]
+  | x :: xs, h, pre, tail => by
+      have h1 := h x (by simp) ((xs.map g).flatten ++ tail)
+      have ih := decItemsAt_layout f g nrm xs (fun y hy => h y (by simp [hy])) (pre ++ g x) tail
+      have e1 : pre ++ ((x :: xs).map g).flatten ++ tail = pre ++ (g x ++ ((xs.map g).flatten ++ tail)) := by simp
+      have e2 : pre ++ (g x ++ ((xs.map g).flatten ++ tail)) = (pre ++ g x) ++ (xs.map g).flatten ++ tail := by simp
+      simp only [List.length_cons, decItemsAt]
+      rw [e1, sliceFromI_append_length, h1]
+      simp only [ok_bind]
+      rw [e2]
+      have e3 : (pre.length : Int) + ((g x).length : Int) = ((pre ++ g x).length : Int) := by simp
+      rw [e3, ih]
+      simp
+      omega
+
+def DecLayoutT (t : Ty) : Prop :=
+  ∀ v, wf t v = true → ∀ tail, decode t (layout t v ++ tail) = .ok (((layout t v).length : Int), norm t v)
+def DecLayoutF (fs : Flds) : Prop :=
+  ∀ st, wfFields fs st = true → ∀ pre tail,
+    decFieldsAt fs (pre ++ layoutFields fs st ++ tail) (pre.length : Int)
+      = .ok ((pre.length : Int) + ((layoutFields fs st).length : Int), normFields fs st)
+
+theorem decLayout_int (s : Nat) (sg be : Bool) : DecLayoutT (.int s sg be) := by
+  intro v h tail
+  cases v <;> simp [wf] at h
+  · simp [decode, layout, take_append_length _ _ _ (intLayout_length s be _), intFromBytes_intLayout be h,
+      intLayout_length, norm]
+  · simp [decode, layout, take_append_length _ _ _ (intLayout_length s be _), intFromBytes_intLayout be h,
+      intLayout_length, norm]
+
+theorem decLayout_bool : DecLayoutT .bool := by
+  intro v h tail
+  cases v <;> simp [wf] at h
+  rename_i b
+  cases b <;> simp [decode, layout, boolByte, norm, truthy]
+
+theorem decLayout_char (iso : Bool) : DecLayoutT (.char iso) := by
+  intro v h tail
+  cases v <;> simp [wf] at h
+  rename_i cs
+  obtain ⟨hl, hc⟩ := h
+  simp [decode, layout, take_append_length cs tail 1 hl, decodeCs_ok hc, norm, hl]
+
+theorem decLayout_str (iso : Bool) : DecLayoutT (.str iso) := by
+  intro v h tail
+  cases v <;> simp [wf] at h
+  rename_i cs
+  obtain ⟨hl, hc⟩ := h
+  have hlen : intFromBytes true false [cs.length % 256, cs.length / 256] = (cs.length : Int) := by
+    have := intFromBytes_intLayout false (short_inRange cs.length hl)
+    rwa [shortLayout cs.length hl] at this
+  have hs := sliceI_prefix_text [cs.length % 256, cs.length / 256] cs tail rfl
+  simp only [decode, layout, decStr, norm]
+  have ht : ([cs.length % 256, cs.length / 256] ++ cs ++ tail).take 2 = [cs.length % 256, cs.length / 256] := by simp
+  rw [ht, hlen, hs, decodeCs_ok hc]
+  simp
+  omega
+
+theorem decLayout_fixed (iso : Bool) (n : Nat) (rj : Bool) : DecLayoutT (.fixed iso n rj) := by
+  intro v h tail
+  cases v <;> simp [wf] at h
+  rename_i cs
+  obtain ⟨⟨hl, hc⟩, he⟩ := h
+  rw [edgeClean_eq] at he
+  cases rj with
+  | false =>
+    have hp : inCharset iso (ljust cs n) = true := by
+      unfold ljust; rw [inCharset_append, hc, inCharset_spaces]; rfl
+    have hlen := ljust_length hl
+    have hlay : layout (.fixed iso n false) (.str cs) = ljust cs n := by simp [layout, ljust]
+    rw [hlay]
+    simp only [decode, norm]
+    rw [take_append_length _ _ _ hlen, decodeCs_ok hp, hlen]
+    simp [strip_ljust n he]
+  | true =>
+    have hp : inCharset iso (rjust cs n) = true := by
+      unfold rjust; rw [inCharset_append, hc, inCharset_spaces]; rfl
+    have hlen := rjust_length hl
+    have hlay : layout (.fixed iso n true) (.str cs) = rjust cs n := by simp [layout, rjust]
+    rw [hlay]
+    simp only [decode, norm]
+    rw [take_append_length _ _ _ hlen, decodeCs_ok hp, hlen]
+    simp [strip_rjust n he]
+
+theorem decLayout_record (fs : Flds) (q : DecLayoutF fs) : DecLayoutT (.record fs) := by
+  intro v h tail
+  cases v <;> simp [wf] at h
+  rename_i st
+  obtain ⟨_, hw⟩ := h
+  have := q st hw [] tail
+  simp at this
+  simp [decode, layout, this, norm]
+
+theorem decLayout_optrec (fs : Flds) (q : DecLayoutF fs) : DecLayoutT (.optrec fs) := by
+  intro v h tail
+  cases v with
+  | none => simp [decode, layout, norm]
+  | recd st =>
+    cases st with
+    | nil => simp [decode, layout, norm]
+    | cons a st =>
+      simp [wf] at h
+      obtain ⟨_, hw⟩ := h
+      have := q _ hw [] tail
+      simp at this
+      simp [decode, layout, norm, sliceFromI_one_cons, this]
+      omega
+  | _ => simp [wf] at h
+
+theorem decLayout_arr (e : Ty) (cs : Nat) (csg cbe : Bool) (ih : DecLayoutT (elemTy e)) : DecLayoutT (.arr e cs csg cbe) := by
+  intro v h tail
+  obtain ⟨xs, rfl⟩ := wf_arr_not_list _ _ _ _ _ h
+  rw [wf_arr] at h
+  simp only [Bool.and_eq_true, List.all_eq_true] at h
+  obtain ⟨hc, hx⟩ := h
+  have hitems := decItemsAt_layout (fun x => decode (elemTy e) x) (fun x => layout (elemTy e) x) (fun x => norm (elemTy e) x)
+    xs (fun x hxm tl => ih x (hx x hxm) tl) (intLayout cs cbe xs.length) tail
+  rw [decode_arr, layout_arr, norm_arr]
+  have ht : (intLayout cs cbe (xs.length : Int) ++ (xs.map fun x => layout (elemTy e) x).flatten ++ tail).take cs
+      = intLayout cs cbe (xs.length : Int) := by
+    rw [List.append_assoc]; exact take_append_length _ _ _ (intLayout_length cs cbe _)
+  rw [ht, intFromBytes_intLayout cbe hc]
+  rw [intLayout_length] at hitems
+  simp only [Int.toNat_natCast]
+  rw [hitems]
+  simp [intLayout_length]
+
+theorem decLayout_nil : DecLayoutF .nil := by
+  intro st _ pre tail
+  simp [decFieldsAt, layoutFields, normFields]
+
+theorem decLayout_cons (n : Nat) (t : Ty) (d : Val) (r : Flds) (pt : DecLayoutT t) (qr : DecLayoutF r) :
+    DecLayoutF (.cons n t d r) := by
+  intro st h pre tail
+  simp [wfFields] at h
+  obtain ⟨⟨h1, _⟩, h3⟩ := h
+  have a1 := pt _ h1 (layoutFields r st ++ tail)
+  have a2 := qr st h3 (pre ++ layout t (getField st n t d)) tail
+  simp only [decFieldsAt, layoutFields, normFields, fieldValue_eq_getField]
+  have e1 : pre ++ (layout t (getField st n t d) ++ layoutFields r st) ++ tail
+      = pre ++ (layout t (getField st n t d) ++ (layoutFields r st ++ tail)) := by simp
+  have e2 : pre ++ (layout t (getField st n t d) ++ (layoutFields r st ++ tail))
+      = (pre ++ layout t (getField st n t d)) ++ layoutFields r st ++ tail := by simp
+  rw [e1, sliceFromI_append_length, a1]
+  simp only [ok_bind]
+  rw [e2]
+  have e3 : (pre.length : Int) + ((layout t (getField st n t d)).length : Int)
+      = ((pre ++ layout t (getField st n t d)).length : Int) := by simp
+  rw [e3, a2]
+  simp
+  omega
+
+theorem decLayout_all : (∀ t, DecLayoutT t) ∧ (∀ fs, DecLayoutF fs) :=
+  ty_flds_induction decLayout_int decLayout_bool decLayout_char decLayout_str decLayout_fixed
+    decLayout_record decLayout_optrec (fun e cs csg cbe _ ih => decLayout_arr e cs csg cbe ih)
+    decLayout_nil decLayout_cons
+
+/-! ### stores that agree on the fields of a record are interchangeable -/
+
+theorem flds_induction {Q : Flds → Prop} (hnil : Q .nil) (hcons : ∀ n t d r, Q r → Q (.cons n t d r)) : ∀ fs, Q fs :=
+  (ty_flds_induction (P := fun _ => True) (Q := Q) (fun _ _ _ => trivial) trivial (fun _ => trivial) (fun _ => trivial)
+    (fun _ _ _ => trivial) (fun _ _ => trivial) (fun _ _ => trivial) (fun _ _ _ _ _ _ => trivial)
+    hnil (fun n t d r _ q => hcons n t d r q)).2
+
+theorem getField_congr {st1 st2 : Store} (name : Nat) (ty : Ty) (d : Val) (h : lookup st1 name = lookup st2 name) :
+    getField st1 name ty d = getField st2 name ty d := by
+  unfold getField; rw [h]
+
+theorem lookup_cons_self (k : Nat) (x : Val) (st : Store) : lookup ((k, x) :: st) k = some x := by
+  simp [lookup]
+
+theorem lookup_cons_ne {k k' : Nat} (x : Val) (st : Store) (h : k ≠ k') : lookup ((k, x) :: st) k' = lookup st k' := by
+  simp [lookup, h]
+
+theorem getField_cons_self (k : Nat) (x : Val) (st : Store) (ty : Ty) (d : Val) : getField ((k, x) :: st) k ty d = x := by
+  simp [getField, lookup_cons_self]
+
+theorem hasName_cons (n : Nat) (t : Ty) (d : Val) (r : Flds) (k : Nat) :
+    (Flds.cons n t d r).hasName k = (n == k || r.hasName k) := rfl
+
+def StoreAgree (fs : Flds) (st1 st2 : Store) : Prop := ∀ k, fs.hasName k = true → lookup st1 k = lookup st2 k
+
+theorem StoreAgree.tail {n : Nat} {t : Ty} {d : Val} {r : Flds} {st1 st2 : Store}
+    (h : StoreAgree (.cons n t d r) st1 st2) : StoreAgree r st1 st2 :=
+  fun k hk => h k (by simp [hasName_cons, hk])
+
+theorem StoreAgree.head {n : Nat} {t : Ty} {d : Val} {r : Flds} {st1 st2 : Store}
+    (h : StoreAgree (.cons n t d r) st1 st2) : lookup st1 n = lookup st2 n :=
+  h n (by simp [hasName_cons])
+
+/-- an extra entry under a name that is not a field changes nothing -/
+theorem storeAgree_cons {r : Flds} {n : Nat} (x : Val) (st : Store) (h : r.hasName n = false) :
+    StoreAgree r ((n, x) :: st) st := by
+  intro k hk
+  have : n ≠ k := by
+    intro e; subst e; rw [h] at hk; exact absurd hk (by simp)
+  exact lookup_cons_ne x st this
+
+theorem wfFields_congr : ∀ fs st1 st2, StoreAgree fs st1 st2 → wfFields fs st1 = wfFields fs st2 :=
+  flds_induction (Q := fun fs => ∀ st1 st2, StoreAgree fs st1 st2 → wfFields fs st1 = wfFields fs st2)
+    (fun _ _ _ => rfl)
+    (fun n t d r ih st1 st2 h => by
+      simp only [wfFields]
+      rw [getField_congr n t d h.head, ih st1 st2 h.tail])
+
+theorem layoutFields_congr : ∀ fs st1 st2, StoreAgree fs st1 st2 → layoutFields fs st1 = layoutFields fs st2 :=
+  flds_induction (Q := fun fs => ∀ st1 st2, StoreAgree fs st1 st2 → layoutFields fs st1 = layoutFields fs st2)
+    (fun _ _ _ => rfl)
+    (fun n t d r ih st1 st2 h => by
+      simp only [layoutFields, fieldValue_eq_getField]
+      rw [getField_congr n t d h.head, ih st1 st2 h.tail])
+
+theorem readField_congr : ∀ fs st1 st2, StoreAgree fs st1 st2 → ∀ k p, readField fs st1 k p = readField fs st2 k p :=
+  flds_induction (Q := fun fs => ∀ st1 st2, StoreAgree fs st1 st2 → ∀ k p, readField fs st1 k p = readField fs st2 k p)
+    (fun _ _ _ _ _ => rfl)
+    (fun n t d r ih st1 st2 h k p => by
+      simp only [readField]
+      rw [getField_congr n t d h.head, ih st1 st2 h.tail])
+
+/-! ### the decoded value is again in the domain, has the same layout, and is a fixed point of `norm` -/
+
+def NormT (t : Ty) : Prop :=
+  ∀ v, wf t v = true → wf t (norm t v) = true ∧ layout t (norm t v) = layout t v
+def NormF (fs : Flds) : Prop :=
+  ∀ st, wfFields fs st = true →
+    wfFields fs (normFields fs st) = true ∧ layoutFields fs (normFields fs st) = layoutFields fs st
+
+theorem normT_int (s : Nat) (sg be : Bool) : NormT (.int s sg be) := by
+  intro v h
+  cases v <;> simp [wf] at h
+  · simp [norm, wf, h]
+  · simp [norm, wf, h, layout]
+
+theorem normT_bool : NormT .bool := by
+  intro v h
+  cases v <;> simp [wf] at h
+  simp [norm, wf, truthy]
+
+theorem normT_char (iso : Bool) : NormT (.char iso) := by
+  intro v h; simp [norm, h]
+theorem normT_str (iso : Bool) : NormT (.str iso) := by
+  intro v h; simp [norm, h]
+theorem normT_fixed (iso : Bool) (n : Nat) (rj : Bool) : NormT (.fixed iso n rj) := by
+  intro v h; simp [norm, h]
+
+theorem normT_record (fs : Flds) (q : NormF fs) : NormT (.record fs) := by
+  intro v h
+  cases v <;> simp [wf] at h
+  rename_i st
+  obtain ⟨hn, hw⟩ := h
+  obtain ⟨q1, q2⟩ := q st hw
+  simp [norm, wf, hn, q1, layout, q2]
+
+theorem normFields_cons_ne_nil (n : Nat) (t : Ty) (d : Val) (r : Flds) (st : Store) :
+    ∃ y ys, normFields (.cons n t d r) st = y :: ys := ⟨_, _, rfl⟩
+
+theorem normT_optrec (fs : Flds) (q : NormF fs) : NormT (.optrec fs) := by
+  intro v h
+  cases v with
+  | none => simp [norm, wf]
+  | recd st =>
+    cases st with
+    | nil => simp [norm, wf, layout]
+    | cons a st =>
+      simp [wf] at h
+      obtain ⟨hn, hw⟩ := h
+      obtain ⟨q1, q2⟩ := q _ hw
+      cases fs with
+      | nil => simp [Flds.isNil] at hn
+      | cons n t d r =>
+        obtain ⟨y, ys, hy⟩ := normFields_cons_ne_nil n t d r (a :: st)
+        simp only [norm]
+        rw [hy] at q1 q2 ⊢
+        simp [wf, Flds.isNil, q1, layout, q2]
+  | _ => simp [wf] at h
+
+theorem normT_arr (e : Ty) (cs : Nat) (csg cbe : Bool) (ih : NormT (elemTy e)) : NormT (.arr e cs csg cbe) := by
+  intro v h
+  obtain ⟨xs, rfl⟩ := wf_arr_not_list _ _ _ _ _ h
+  rw [wf_arr] at h
+  simp only [Bool.and_eq_true, List.all_eq_true] at h
+  obtain ⟨hc, hx⟩ := h
+  rw [norm_arr, wf_arr, layout_arr, layout_arr]
+  constructor
+  · simp only [Bool.and_eq_true, List.all_eq_true, List.length_map]
+    refine ⟨hc, ?_⟩
+    intro y hy
+    rw [List.mem_map] at hy
+    obtain ⟨x, hxm, rfl⟩ := hy
+    exact (ih x (hx x hxm)).1
+  · simp only [List.length_map, List.map_map]
+    congr 2
+    apply List.map_congr_left
+    intro x hxm
+    exact (ih x (hx x hxm)).2
+
+theorem normF_nil : NormF .nil := by
+  intro st _
+  simp [wfFields, layoutFields]
+
+theorem normF_cons (n : Nat) (t : Ty) (d : Val) (r : Flds) (pt : NormT t) (qr : NormF r) : NormF (.cons n t d r) := by
+  intro st h
+  simp [wfFields] at h
+  obtain ⟨⟨h1, h2⟩, h3⟩ := h
+  obtain ⟨p1, p2⟩ := pt _ h1
+  obtain ⟨q1, q2⟩ := qr st h3
+  have hag := storeAgree_cons (norm t (getField st n t d)) (normFields r st) h2
+  simp only [normFields, wfFields, layoutFields, fieldValue_eq_getField, getField_cons_self]
+  rw [wfFields_congr r _ _ hag, layoutFields_congr r _ _ hag]
+  simp [p1, p2, h2, q1, q2]
+
+theorem norm_all : (∀ t, NormT t) ∧ (∀ fs, NormF fs) :=
+  ty_flds_induction normT_int normT_bool normT_char normT_str normT_fixed
+    normT_record normT_optrec (fun e cs csg cbe _ ih => normT_arr e cs csg cbe ih)
+    normF_nil normF_cons
+
+/-! ### reading the decoded value through the typed attributes -/
+
+def ReadT (t : Ty) : Prop := ∀ v, wf t v = true → ∀ p, read t (norm t v) p = read t v p
+def ReadF (fs : Flds) : Prop :=
+  ∀ st, wfFields fs st = true → ∀ k p, readField fs (normFields fs st) k p = readField fs st k p
+
+theorem readT_int (s : Nat) (sg be : Bool) : ReadT (.int s sg be) := by
+  intro v h p
+  cases v <;> simp [wf] at h
+  · simp [norm]
+  · cases p <;> simp [norm, read]
+
+theorem readT_bool : ReadT .bool := by
+  intro v h p
+  cases v <;> simp [wf] at h
+  simp [norm, truthy]
+
+theorem readT_char (iso : Bool) : ReadT (.char iso) := by
+  intro v h p; simp [norm]
+theorem readT_str (iso : Bool) : ReadT (.str iso) := by
+  intro v h p; simp [norm]
+theorem readT_fixed (iso : Bool) (n : Nat) (rj : Bool) : ReadT (.fixed iso n rj) := by
+  intro v h p; simp [norm]
+
+theorem readT_record (fs : Flds) (q : ReadF fs) : ReadT (.record fs) := by
+  intro v h p
+  cases v <;> simp [wf] at h
+  rename_i st
+  obtain ⟨_, hw⟩ := h
+  cases p with
+  | nil => simp [norm, read]
+  | cons hd tl =>
+    cases hd with
+    | field k => simp [norm, read, q st hw k tl]
+    | idx i => simp [norm, read]
+
+theorem readT_optrec (fs : Flds) (q : ReadF fs) : ReadT (.optrec fs) := by
+  intro v h p
+  cases v with
+  | none => simp [norm]
+  | recd st =>
+    cases st with
+    | nil => simp [norm, read]
+    | cons a st =>
+      simp [wf] at h
+      obtain ⟨hn, hw⟩ := h
+      cases fs with
+      | nil => simp [Flds.isNil] at hn
+      | cons n t d r =>
+        obtain ⟨y, ys, hy⟩ := normFields_cons_ne_nil n t d r (a :: st)
+        have hq := q _ hw
+        simp only [norm]
+        rw [hy] at hq ⊢
+        cases p with
+        | nil => simp [read]
+        | cons hd tl =>
+          cases hd with
+          | field k => simp [read, hq k tl]
+          | idx i => simp [read]
+  | _ => simp [wf] at h
+
+theorem readT_arr (e : Ty) (cs : Nat) (csg cbe : Bool) (ih : ReadT (elemTy e)) : ReadT (.arr e cs csg cbe) := by
+  intro v h p
+  obtain ⟨xs, rfl⟩ := wf_arr_not_list _ _ _ _ _ h
+  rw [wf_arr] at h
+  simp only [Bool.and_eq_true, List.all_eq_true] at h
+  obtain ⟨_, hx⟩ := h
+  rw [norm_arr]
+  cases p with
+  | nil => simp [read_arr_nil]
+  | cons hd tl =>
+    cases hd with
+    | field k => simp [read_arr_field]
+    | idx i =>
+      rw [read_arr_idx, read_arr_idx, List.getElem?_map]
+      cases hxi : xs[i]? with
+      | none => simp
+      | some x =>
+        have hmem : x ∈ xs := List.mem_of_getElem? hxi
+        simp [ih x (hx x hmem) tl]
+
+theorem readF_nil : ReadF .nil := by
+  intro st _ k p
+  simp [readField]
+
+theorem readF_cons (n : Nat) (t : Ty) (d : Val) (r : Flds) (pt : ReadT t) (qr : ReadF r) : ReadF (.cons n t d r) := by
+  intro st h k p
+  simp [wfFields] at h
+  obtain ⟨⟨h1, h2⟩, h3⟩ := h
+  have hag := storeAgree_cons (norm t (getField st n t d)) (normFields r st) h2
+  simp only [normFields, readField, getField_cons_self]
+  rw [readField_congr r _ _ hag, pt _ h1 p, qr st h3 k p]
+
+theorem read_all : (∀ t, ReadT t) ∧ (∀ fs, ReadF fs) :=
+  ty_flds_induction readT_int readT_bool readT_char readT_str readT_fixed
+    readT_record readT_optrec (fun e cs csg cbe _ ih => readT_arr e cs csg cbe ih)
+    readF_nil readF_cons
+
+/-! ### the reported length is the number of bytes (on the values where the code as it is gets it right) -/
+
+theorem bind_eq_ok {α β : Type} {x : Except Err α} {f : α → Except Err β} {b : β} :
+    (x >>= f) = .ok b ↔ ∃ a, x = .ok a ∧ f a = .ok b := by
+  constructor
+  · exact bind_ok_inv
+  · rintro ⟨a, rfl, h⟩; simpa using h
+
+theorem lenSafe_arr_list (e : Ty) (cs : Nat) (csg cbe : Bool) (xs : List Val) :
+    lenSafe (.arr e cs csg cbe) (.list xs) = xs.all fun x => lenSafe (elemTy e) x := by
+  cases e <;> simp [lenSafe, elemTy]
+
+theorem lenSafe_arr_str (e : Ty) (cs : Nat) (csg cbe : Bool) (s : Str) (h : lenSafe (.arr e cs csg cbe) (.str s) = true) :
+    ∀ c ∈ s, (∀ n bs, encode (elemTy e) (.str [c]) = .ok (n, bs) → lenSafe (elemTy e) (.str [c]) = true) := by
+  intro c hc n bs henc
+  cases e <;> simp [lenSafe, elemTy] at h ⊢
+  all_goals first | exact h c hc | simp [lenSafe]
+
+theorem encItems_len (f : Val → Except Err (Nat × Bytes)) :
+    ∀ (xs : List Val), (∀ x ∈ xs, ∀ n bs, f x = .ok (n, bs) → n = bs.length) →
+      ∀ n bs, encItems f xs = .ok (n, bs) → n = bs.length
+  | [], _, n, bs, h => by
+      simp [encItems] at h
+      obtain ⟨rfl, rfl⟩ := h; rfl
+  | x :: xs, hx, n, bs, h => by
+      simp only [encItems, bind_eq_ok, pure_eq_ok] at h
+      obtain ⟨⟨n1, b1⟩, h1, ⟨n2, b2⟩, h2, h3⟩ := h
+      have e1 := hx x (by simp) n1 b1 h1
+      have e2 := encItems_len f xs (fun y hy => hx y (by simp [hy])) n2 b2 h2
+      simp at h3
+      obtain ⟨rfl, rfl⟩ := h3
+      simp [e1, e2]
+
+def LenT (t : Ty) : Prop := ∀ v n bs, lenSafe t v = true → encode t v = .ok (n, bs) → n = bs.length
+def LenF (fs : Flds) : Prop := ∀ st n bs, lenSafeF fs st = true → encFields fs st = .ok (n, bs) → n = bs.length
+
+theorem encInt_len {s : Nat} {sg be : Bool} {v : Val} {n : Nat} {bs : Bytes} (h : encInt s sg be v = .ok (n, bs)) :
+    n = bs.length := by
+  cases v <;> simp [encInt, bind_eq_ok] at h
+  all_goals
+    obtain ⟨hb, rfl⟩ := h
+    exact (intToBytes_length hb).symm
+
+theorem lenT_int (s : Nat) (sg be : Bool) : LenT (.int s sg be) := by
+  intro v n bs _ h
+  simp only [encode] at h
+  exact encInt_len h
+
+theorem lenT_bool : LenT .bool := by
+  intro v n bs _ h
+  simp [encode] at h
+  obtain ⟨rfl, rfl⟩ := h; rfl
+
+theorem lenT_char (iso : Bool) : LenT (.char iso) := by
+  intro v n bs hs h
+  cases v <;> simp [encode, encChar, bind_eq_ok] at h
+  rename_i cs
+  obtain ⟨hb, rfl⟩ := h
+  have := encodeCs_eq hb
+  subst this
+  cases cs with
+  | nil => simp [lenSafe] at hs
+  | cons c r => simp
+
+theorem lenT_str (iso : Bool) : LenT (.str iso) := by
+  intro v n bs _ h
+  cases v <;> simp [encode, encStr, bind_eq_ok] at h
+  rename_i cs
+  obtain ⟨lb, hlb, b, hb, rfl, rfl⟩ := h
+  have := encodeCs_eq hb
+  subst this
+  simp [intToBytes_length hlb]
+
+theorem lenT_fixed (iso : Bool) (k : Nat) (rj : Bool) : LenT (.fixed iso k rj) := by
+  intro v n bs hs h
+  cases v <;> simp [encode, encFixed, bind_eq_ok] at h
+  rename_i cs
+  obtain ⟨hb, rfl⟩ := h
+  have := encodeCs_eq hb
+  subst this
+  have hl : cs.length ≤ k := by simpa [lenSafe] using hs
+  cases rj
+  · simp [ljust_length hl]
+  · simp [rjust_length hl]
+
+theorem asStore_ok {b : Bool} {v : Val} {st : Store} (h : asStore b v = .ok st) : v = .recd st := by
+  unfold asStore at h
+  split at h
+  · simp at h
+  · cases v <;> simp at h
+    exact congrArg _ h
+
+theorem lenT_record (fs : Flds) (q : LenF fs) : LenT (.record fs) := by
+  intro v n bs hs h
+  simp only [encode, bind_eq_ok] at h
+  obtain ⟨st, hst, h⟩ := h
+  have := asStore_ok hst
+  subst this
+  exact q st n bs (by simpa [lenSafe] using hs) h
+
+theorem lenT_optrec (fs : Flds) (q : LenF fs) : LenT (.optrec fs) := by
+  intro v n bs hs h
+  cases v with
+  | none => simp [encode] at h; obtain ⟨rfl, rfl⟩ := h; rfl
+  | recd st =>
+    cases st with
+    | nil => simp [encode] at h; obtain ⟨rfl, rfl⟩ := h; rfl
+    | cons a st =>
+      simp only [encode, bind_eq_ok, pure_eq_ok] at h
+      obtain ⟨st', hst, ⟨n1, b1⟩, h1, h2⟩ := h
+      have := asStore_ok hst
+      injection this with this
+      subst this
+      have := q _ n1 b1 (by simpa [lenSafe] using hs) h1
+      simp at h2
+      obtain ⟨rfl, rfl⟩ := h2
+      simp [this]; omega
+  | _ => simp [encode] at h
+
+theorem lenT_arr (e : Ty) (cs : Nat) (csg cbe : Bool) (ih : LenT (elemTy e)) : LenT (.arr e cs csg cbe) := by
+  intro v n bs hs h
+  rw [encode_arr] at h
+  cases v with
+  | list xs =>
+    rw [lenSafe_arr_list] at hs
+    simp only [List.all_eq_true] at hs
+    simp only [encArr, bind_eq_ok, pure_eq_ok] at h
+    obtain ⟨⟨n0, b0⟩, h0, ⟨n1, b1⟩, h1, h2⟩ := h
+    have e0 := encInt_len h0
+    have e1 := encItems_len _ xs (fun x hx n bs he => ih x n bs (hs x hx) he) n1 b1 h1
+    simp at h2
+    obtain ⟨rfl, rfl⟩ := h2
+    simp [e0, e1]
+  | str s =>
+    have hs' := lenSafe_arr_str e cs csg cbe s hs
+    simp only [encArr, bind_eq_ok, pure_eq_ok] at h
+    obtain ⟨⟨n0, b0⟩, h0, ⟨n1, b1⟩, h1, h2⟩ := h
+    have e0 := encInt_len h0
+    have e1 := encItems_len _ (s.map fun ch => Val.str [ch]) (by
+      intro x hx n bs he
+      rw [List.mem_map] at hx
+      obtain ⟨c, hc, rfl⟩ := hx
+      exact ih _ n bs (hs' c hc n bs he) he) n1 b1 h1
+    simp at h2
+    obtain ⟨rfl, rfl⟩ := h2
+    simp [e0, e1]
+  | _ => simp [encArr] at h
+
+theorem lenF_nil : LenF .nil := by
+  intro st n bs _ h
+  simp [encFields] at h
+  obtain ⟨rfl, rfl⟩ := h; rfl
+
+theorem lenF_cons (k : Nat) (t : Ty) (d : Val) (r : Flds) (pt : LenT t) (qr : LenF r) : LenF (.cons k t d r) := by
+  intro st n bs hs h
+  simp only [lenSafeF, Bool.and_eq_true] at hs
+  simp only [encFields, bind_eq_ok, pure_eq_ok] at h
+  obtain ⟨⟨n1, b1⟩, h1, ⟨n2, b2⟩, h2, h3⟩ := h
+  have e1 := pt _ n1 b1 hs.1 h1
+  have e2 := qr st n2 b2 hs.2 h2
+  simp at h3
+  obtain ⟨rfl, rfl⟩ := h3
+  simp [e1, e2]
+
+theorem len_all : (∀ t, LenT t) ∧ (∀ fs, LenF fs) :=
+  ty_flds_induction lenT_int lenT_bool lenT_char lenT_str lenT_fixed
+    lenT_record lenT_optrec (fun e cs csg cbe _ ih => lenT_arr e cs csg cbe ih)
+    lenF_nil lenF_cons
+
+/-! ### messages -/
+
+theorem byte_inRange {i : Nat} (h : i < 256) : intInRange 1 false (i : Int) = true := by
+  simp [intInRange]; omega
+
+theorem byteLayout {i : Nat} (h : i < 256) : intLayout 1 false (i : Int) = [i] := by
+  unfold intLayout intByte
+  have e : (((i : Int) % ((2 ^ (8 * 1) : Nat) : Int)).toNat) = i := by
+    have : ((2 ^ (8 * 1) : Nat) : Int) = 256 := by decide
+    rw [this]; omega
+  simp [List.range_succ]
+  omega
+
+theorem encodeMsg_layout (m : MsgDef) (v : Val) (h : wfMsg m v = true) :
+    encodeMsg m v = .ok ((msgLayout m v).length, msgLayout m v) := by
+  simp only [wfMsg, Bool.and_eq_true, decide_eq_true_eq] at h
+  have h1 := intLayout_eq false (byte_inRange h.1)
+  rw [byteLayout h.1] at h1
+  simp [encodeMsg, encInt, h1, encLayout_all.1 _ v h.2, msgLayout]
+  omega
+
+theorem findMsg_ind {reg : List MsgDef} {i : Int} {m : MsgDef} (h : findMsg reg i = some m) : (m.ind : Int) = i := by
+  induction reg with
+  | nil => simp [findMsg] at h
+  | cons a rest ih =>
+    simp only [findMsg] at h
+    split at h
+    · injection h with h; subst h; assumption
+    · exact ih h
+
+theorem decodeMsg_layout (reg : List MsgDef) (m : MsgDef) (v : Val) (tail : Bytes)
+    (hreg : findMsg reg (m.ind : Int) = some m) (h : wfMsg m v = true) :
+    decodeMsg reg (msgLayout m v ++ tail) = .ok (((msgLayout m v).length : Int), m.cls, norm (.record m.fs) v) := by
+  simp only [wfMsg, Bool.and_eq_true, decide_eq_true_eq] at h
+  have hid : intFromBytes false false [m.ind] = (m.ind : Int) := by
+    have := intFromBytes_intLayout false (byte_inRange h.1)
+    rwa [byteLayout h.1] at this
+  have hdec := decLayout_all.1 _ v h.2 tail
+  simp only [decodeMsg, msgLayout]
+  have ht : (m.ind :: layout (.record m.fs) v ++ tail).take 1 = [m.ind] := by simp
+  rw [ht, hid, hreg]
+  simp only []
+  rw [List.cons_append, sliceFromI_one_cons, hdec]
+  simp
+  omega
+
 end NasdaqModel.BinCodec
